@@ -293,16 +293,64 @@ def _run_impl_pairs(mod, cases, parallel=True):
     if not parallel or getattr(mod, "SERIAL", False):
         return _impl_chunk(cases)
     if len(cases) < 64:
-        ctx = mp.get_context("fork")
-        with ctx.Pool(1) as pool:
-            return pool.map(_impl_chunk, [cases])[0]
-    n = NCPU
-    size = max(1, (len(cases) + n * 4 - 1) // (n * 4))
-    chunks = [cases[i:i + size] for i in range(0, len(cases), size)]
+        n, chunks = 1, [cases]
+    else:
+        n = NCPU
+        size = max(1, (len(cases) + n * 4 - 1) // (n * 4))
+        chunks = [cases[i:i + size] for i in range(0, len(cases), size)]
     ctx = mp.get_context("fork")
+    # Second line of defence behind the per-case SIGALRM watchdog: a worker stuck where the alarm cannot reach it
+    # (a blocking system call in a helper thread, a FIFO that never gets a writer, ...) must not hang the check.
+    # When no chunk has been delivered for a long while the pool is killed and the undelivered cases are observed
+    # as "Hung".
+    stall = max(180.0, CASE_TIMEOUT * 8.0)
+    outs = [None] * len(chunks)
     with ctx.Pool(n) as pool:
-        outs = pool.map(_impl_chunk, chunks)
+        handles = [pool.apply_async(_impl_chunk, (c,)) for c in chunks]
+        pending = set(range(len(chunks)))
+        last = time.time()
+        while pending:
+            done = [i for i in pending if handles[i].ready()]
+            for i in done:
+                outs[i] = handles[i].get()
+                pending.discard(i)
+            if done:
+                last = time.time()
+            elif time.time() - last > stall:
+                pool.terminate()
+                break
+            else:
+                time.sleep(0.02)
+    for i in range(len(chunks)):
+        if outs[i] is None:
+            outs[i] = _isolate(ctx, chunks[i])
     return [l for o in outs for l in o]
+
+
+def _isolate(ctx, chunk):
+    """Re-run the cases of a chunk whose worker never returned, one at a time in a worker of their own, to find
+    the case(s) that hang; every other case gets its ordinary observation."""
+    out = []
+    limit = CASE_TIMEOUT * 2.0 + 10.0
+    found = 0
+    pool = ctx.Pool(1)
+    try:
+        for c in chunk:
+            if found >= 2:      # enough examples: the rest of the chunk is not run again
+                out.append((_encode_one(c), enc_line(["driver-exception", "NotRun", "skipped after two hanging cases in this chunk"])))
+                continue
+            h = pool.apply_async(_impl_chunk, ([c],))
+            try:
+                out.append(h.get(timeout=limit)[0])
+            except mp.TimeoutError:
+                found += 1
+                pool.terminate()
+                pool = ctx.Pool(1)
+                out.append((_encode_one(c), enc_line(["driver-exception", "Hung",
+                                                      "the implementation never returned on this case (worker killed after %ds)" % int(limit)])))
+    finally:
+        pool.terminate()
+    return out
 
 
 def run_model(pid, lines):
@@ -501,6 +549,8 @@ def run_check(mod, tier, seed, replay=None):
     ntriv = set()
     for i, c in enumerate(cases):
         obs = dec_line(impl_lines[i])
+        if impl_lines[i].startswith(enc_line(["driver-exception", "NotRun"])):
+            continue            # not run again after its worker hung (see _isolate): no verdict; it counts as a mismatch
         try:
             v = mod.oracle(c, obs)
         except Exception as e:
@@ -559,7 +609,7 @@ def run_check(mod, tier, seed, replay=None):
             pool = [f for f in failures if pref and pref in f[1][0]] or failures
             i, v = min(pool, key=lambda iv: len(lines[iv[0]]))
             c = cases[i]
-            if hasattr(mod, "shrink"):
+            if hasattr(mod, "shrink") and "Hung" not in v[0] and "NotRun" not in v[0]:
                 c = shrink_case(mod, c, v[0])
                 cl, il = [x[0] for x in run_impl(mod, [c])]
                 ml = run_model(pid, [cl])[0]
@@ -567,8 +617,8 @@ def run_check(mod, tier, seed, replay=None):
                 if v2 is not None:
                     v = v2
             else:
-                il, ml = impl_lines[i], model_lines[i]
-            rep.update({"case": _freeze(c), "case_line": cl if hasattr(mod, "shrink") else lines[i], "implementation": il, "model": ml,
+                cl, il, ml = lines[i], impl_lines[i], model_lines[i]
+            rep.update({"case": _freeze(c), "case_line": cl, "implementation": il, "model": ml,
                         "signature": v[0], "oracle_verdict": v[1],
                         "how_to_replay": "./check %s --replay %s" % (pid, os.path.relpath(rfile, VERIF))})
             tail = ""
